@@ -12,5 +12,5 @@ for C in "$@"; do
   KEYS=$(echo "$O" | grep -o "^VIOLATION property=[A-Z0-9]* replay=[^ ]* key=[^ ]*" | sed 's/.*key=//' | tr '\n' ' ')
   echo "$D check=$C $TIER exit=$RC keys=[$KEYS]"
 done
-git -C /repo checkout -- .
+git -C /repo checkout -- . && git -C /repo clean -fdq -- src
 rm -rf $SCR
